@@ -60,15 +60,20 @@ func (s *SchemaManager) ResolveTypes() error {
 	// going to re-add the Query type.
 
 	for _, gqlType := range s.schema.TypeMap() {
-		object, isObject := gqlType.(*gql.Object)
-		if !isObject {
-			continue
-		}
-		// We need to make sure the object's fields are resolved
-		object.Fields()
+		switch object := gqlType.(type) {
+		case *gql.Object:
+			// We need to make sure the object's fields are resolved
+			object.Fields()
 
-		if object.Error() != nil {
-			return object.Error()
+			if object.Error() != nil {
+				return object.Error()
+			}
+
+		case *gql.InputObject:
+			// The fields of input objects are resolved lazily too. If they are not resolved here, the
+			// first requests that are executed concurrently race to resolve (and write) them.
+			// (An input object without any field is only an error once it is used.)
+			object.Fields()
 		}
 	}
 
